@@ -381,6 +381,23 @@ def scanner_shape(run, ctx):
                 if [a_ for a_, _ in seq] != [x for x in want_order if x in [a_ for a_, _ in seq]] or not seq or seq[0][0] != "doubled":
                     bad = "the alternatives are not tried in the documented order (found %s)" % seq
                     break
+                def pair_of(b_text):
+                    """the two components of the parsed pair, as the rest of the path names them"""
+                    mb_ = re.match(r"^Some\(\((\w+),(\w+)\)\)$", b_text or "")
+                    if mb_:
+                        return [(mb_.group(1), mb_.group(2))]
+                    ma_ = re.match(r"^Some\((\w+)\)$", b_text or "")
+                    if not ma_:
+                        return []
+                    x_ = ma_.group(1)
+                    out_ = [("%s.0" % x_, "%s.1" % x_)]
+                    for ev_ in p.events:
+                        scr_ = (ev_.b if ev_.kind in ("letcond", "let", "let-else") else None) or ""
+                        pat_ = (ev_.a if ev_.kind in ("letcond", "let", "let-else") else "") or ""
+                        md_ = re.match(r"^(?:Some\()?\((\w+),(\w+)\)\)?$", pat_)
+                        if md_ and scr_ in (x_, "Some(%s)" % x_) and (ev_.kind != "letcond" or ev_.c):
+                            out_.append((md_.group(1), md_.group(2)))
+                    return out_
                 d = dict(seq)
                 m_res = re.match(r"^(?:%s)\[(.*)\.\.\]\.chars\(\)$" % re.escape(IT), H.subst_lets(resume or "", lets_))
                 skip = m_res.group(1) if m_res else None
@@ -389,12 +406,10 @@ def scanner_shape(run, ctx):
                     ok_, cl = fcalls == ["%s(Step::Char(self.sub_char))" % F] and skip == "1" and len(seq) == 1, "doubled"
                 elif d.get("name") or (d.get("name") is False and d.get("allow") and d.get("bare-name")):
                     cl = "name" if d.get("name") else "bare-name"
-                    mb = re.match(r"^Some\(\((\w+),(\w+)\)\)$", bnd.get(cl, ""))
-                    ok_ = bool(mb) and fcalls == ["%s(Step::GroupName(%s))" % (F, mb.group(1))] and skip == mb.group(2) and "number" not in d
+                    ok_ = any(fcalls == ["%s(Step::GroupName(%s))" % (F, a1)] and skip == a2 for a1, a2 in pair_of(bnd.get(cl, ""))) and "number" not in d
                 elif d.get("name") is False and (d.get("allow") is False or d.get("bare-name") is False) and d.get("number"):
                     cl = "number"
-                    mb = re.match(r"^Some\(\((\w+),(\w+)\)\)$", bnd.get("number", ""))
-                    ok_ = bool(mb) and fcalls == ["%s(Step::GroupNum(%s))" % (F, mb.group(2))] and skip == mb.group(1)
+                    ok_ = any(fcalls == ["%s(Step::GroupNum(%s))" % (F, a2)] and skip == a1 for a1, a2 in pair_of(bnd.get("number", "")))
                 elif d.get("name") is False and (d.get("allow") is False or d.get("bare-name") is False) and d.get("number") is False:
                     cl = "malformed"
                     ok_ = fcalls == ["%s(Step::Error)" % F, "%s(Step::Char(self.sub_char))" % F] and skip == "0"
